@@ -15,6 +15,12 @@ CHECKS = {
  'C03': dict(cat=MC, technique='TLA+ symmetry theorems (negation, affine, refinement index map, NaN index correction) checked by TLC on every signal; pairs of runs of the real detectors related as the spec states; recorded pairs decided by a TLC trace specification',
    text='The transformations form a finite family per signal; TLC proves the relations on the specification for every signal of the bounded instance and the harness executes the real detectors on every (signal, transformation) pair of that instance, comparing observed outputs by the relation; longer recorded pairs are accepted/rejected by Trace_Symmetry.tla.',
    note='integer samples / integer affine maps for the TLC-decided part; FKM claimed only for negation and refinement', ref='5 C03'),
+ 'C04': dict(cat=MC, technique='TLA+ spec of the two-pass HCM protocol (spec/hcm/HCMNL.tla) with definition-level oracle Periodic(s) = rainflow of the periodic reversal sequence; TLC exhaustive over all load sequences; every state replayed into FKMNonlinearDetector; recorded runs validated by Trace_HCM.tla',
+   text='TLC checks SecondPass = Periodic and the Memory-3 rule on every load sequence of the bounded instances (two alphabets), the harness judges the real recorder content of every such sequence by the same definition-level predicate, and longer recorded sequences with non-reversal refinements are accepted/rejected by the trace specification (which also evaluates C04 on the logged rows).',
+   note='integer loads (tolerances of the code inactive), injected exact linear law, single point; the junction defect found this way was repaired in /repo (fix: cf9ffe7)', ref='5 C04'),
+ 'C05': dict(cat=MC, technique='TLA+ HCM specification with abstract notch law (3 exact integer laws) as the independent implementation; TLC exhaustive; all recorder columns and strain lists of every state compared exactly with FKMNonlinearDetector; batch-vs-alone and negation relations; recorded runs validated by Trace_HCM.tla',
+   text='The specification is an independent implementation of the HCM procedure (cases a-c, Memory 1-3, running extremes) parametrised by the law; for three exact laws every load sequence of the bounded instance is replayed with the same law injected and every column compared exactly; batches of proportional points (incl. arbitrary node ids / load-step labels) are compared with each point alone.',
+   note='laws are exact integer functions injected through the constructor; real laws are exercised via C10; raw chunked process() on multi-point input is outside the property (observation O1 in DESIGN)', ref='5 C05'),
 }
 PENDING = 'check not built yet in this round (planned, see DESIGN.md section 5)'
 NA = {
